@@ -147,6 +147,7 @@ inline uint64_t digest(const Trace& t, int mask) {
 		if (!withLog && (e.kind == EV_BEGIN || e.kind == EV_END) && e.method == OP_LOGGER) continue;
 		if (!withLog && e.kind == EV_NOTE && e.method == NOTE_CONSTRUCT) { hmix(h, e.kind); hmix(h, e.inst); hmix(h, e.method); continue; }
 		if (!(mask & DGB_SERIAL) && e.kind == EV_NOTE && (e.method == NOTE_CANARY || e.method == NOTE_BUFEQ || e.method == NOTE_BUFACT)) continue;
+		if (!(mask & DGB_PLAN) && e.kind == EV_NOTE && e.method == NOTE_HELD) continue;   // exists only in builds with plans
 		hmix(h, e.kind); hmix(h, e.inst); hmix(h, e.state); hmix(h, e.method); hmix(h, e.who); hmix(h, e.ctl);
 		hmix(h, e.a); hmix(h, e.b); hmix(h, e.c);
 		if (e.kind == EV_CB) { hmix(h, e.sid); hmix(h, e.ctxOk); hmix(h, e.evtOk); hmix(h, e.cAct); htr(h, e.req); htr(h, e.pend); htr(h, e.cur); hmix(h, e.local); }
